@@ -31,26 +31,33 @@ def main():
     num = sid[1:]
     src = Path(f"/tmp/seed_out/{sid}")
     wt = Path(f"/tmp/seed_c{num}")
+    recheck = "--recheck" in sys.argv          # the seed is already stored under seeded/<id>/: only run our check against it again
+    if recheck:
+        src = VERIF / "seeded" / sid
     meta = json.loads((src / "meta.json").read_text())
     demo = [p for p in src.glob("demo_*") if p.suffix == ".py"][0]
     demo_cmd = meta.get("demo_cmd", f"/venv/bin/python {demo.name}")
     res = {"property": pid}
+    if recheck:
+        res = dict(meta.get("verification", {}))
+        res["property"] = pid
     # (1) confirm in the seeding worktree
-    rc, out = sh("git stash list | wc -l; git status --porcelain | head -5", cwd=wt)
-    rc, out = sh("/venv/bin/python -m pytest -q -p no:cacheprovider --timeout=900 2>&1 | tail -1", cwd=wt)
-    res["suite_with_change"] = out.strip()
-    rc1, out1 = sh(demo_cmd, cwd=wt, timeout=300)
-    res["demo_with_change_exit"] = rc1
-    res["demo_with_change_tail"] = out1[-600:]
-    # NOT git stash: the stash is shared by every worktree of /repo (two seed agents collided on it once)
-    d_rc, d_out = sh(f"git diff -- src | diff -q - {src / 'patch.diff'}", cwd=wt)
-    res["worktree_diff_equals_patch"] = d_rc == 0
-    sh(f"git apply -R {src / 'patch.diff'}", cwd=wt)
-    rc2, out2 = sh(demo_cmd, cwd=wt, timeout=300)
-    sh(f"git apply {src / 'patch.diff'}", cwd=wt)
-    res["demo_without_change_exit"] = rc2
-    res["demo_without_change_tail"] = out2[-300:]
-    res["confirmed"] = ("103 passed" in res["suite_with_change"]) and rc1 != 0 and rc2 == 0 and d_rc == 0
+    if not recheck:
+        rc, out = sh("git stash list | wc -l; git status --porcelain | head -5", cwd=wt)
+        rc, out = sh("/venv/bin/python -m pytest -q -p no:cacheprovider --timeout=900 2>&1 | tail -1", cwd=wt)
+        res["suite_with_change"] = out.strip()
+        rc1, out1 = sh(demo_cmd, cwd=wt, timeout=300)
+        res["demo_with_change_exit"] = rc1
+        res["demo_with_change_tail"] = out1[-600:]
+        # NOT git stash: the stash is shared by every worktree of /repo (two seed agents collided on it once)
+        d_rc, d_out = sh(f"git diff -- src | diff -q - {src / 'patch.diff'}", cwd=wt)
+        res["worktree_diff_equals_patch"] = d_rc == 0
+        sh(f"git apply -R {src / 'patch.diff'}", cwd=wt)
+        rc2, out2 = sh(demo_cmd, cwd=wt, timeout=300)
+        sh(f"git apply {src / 'patch.diff'}", cwd=wt)
+        res["demo_without_change_exit"] = rc2
+        res["demo_without_change_tail"] = out2[-300:]
+        res["confirmed"] = ("103 passed" in res["suite_with_change"]) and rc1 != 0 and rc2 == 0 and d_rc == 0
     # (2) our check against it: in a scratch worktree of /repo with the patch applied (VERIF_REPO), or - with --in-repo - literally
     #     `git -C /repo apply`, run, `git -C /repo checkout -- .`
     patch = src / "patch.diff"
@@ -99,10 +106,12 @@ def main():
     # (3) store
     dst = VERIF / "seeded" / sid
     dst.mkdir(parents=True, exist_ok=True)
-    shutil.copy(patch, dst / "patch.diff")
-    shutil.copy(demo, dst / demo.name)
+    if not recheck:
+        shutil.copy(patch, dst / "patch.diff")
+        shutil.copy(demo, dst / demo.name)
     meta["verification"] = res
-    meta["what_was_run"] = [f"cd {wt} && /venv/bin/python -m pytest -q -p no:cacheprovider --timeout=900", f"cd {wt} && {demo_cmd}  (with and without the change)",
+    if not recheck:
+      meta["what_was_run"] = [f"cd {wt} && /venv/bin/python -m pytest -q -p no:cacheprovider --timeout=900", f"cd {wt} && {demo_cmd}  (with and without the change)",
                             f"git -C /repo apply seeded/{sid}/patch.diff && ./check {pid} --tier quick && git -C /repo checkout -- ."]
     (dst / "meta.json").write_text(json.dumps(meta, indent=1))
     print(json.dumps({k: res[k] for k in ("confirmed", "suite_with_change", "demo_with_change_exit", "demo_without_change_exit") if k in res}))
